@@ -659,6 +659,13 @@ func (w *Writer) writeSelect(s ir.ExprSelect) (string, error) {
 	if err != nil {
 		return "", err
 	}
+	// GLSL's ?: needs a scalar bool condition; a component-wise select is mix() with a bvec.
+	if w.currentFunction != nil && int(s.Condition) < len(w.currentFunction.ExpressionTypes) {
+		inner := w.resolveTypeInner(&w.currentFunction.ExpressionTypes[s.Condition], s.Condition)
+		if _, ok := inner.(ir.VectorType); ok {
+			return fmt.Sprintf("mix(%s, %s, %s)", reject, accept, condition), nil
+		}
+	}
 	return fmt.Sprintf("(%s ? %s : %s)", condition, accept, reject), nil
 }
 
